@@ -114,10 +114,29 @@ def dispatch(repo: Repo, rep: Report) -> None:
         cw.call("use_deterministic_prng", True, 42)
         on = cw.genv.get("_use_deterministic_prng")
         # the function assigns a global: evaluated through its own environment copy, so read the flag through the getter
-        if log == [42]:
-            rep.ok("RNG-2", "use_deterministic_prng(True, 42) seeds the deterministic generator with 42")
-        else:
+        if log != [42]:
             rep.finding("RNG-2", SR, "use_deterministic_prng", "seeding", f"use_deterministic_prng(True, 42) seeds with {log!r}")
+        else:
+            # every enabling call seeds, whatever the calls before it were (a bench loop re-seeds before each puzzle)
+            seqs = [([(True, 1), (True, 2)], [1, 2]), ([(True, 5), (False, None), (True, 5)], [5, 5]), ([(True, None)], [0]),
+                    ([(False, 9), (True, 7), (True, 7)], [7, 7])]
+            bad_s = None
+            for calls_, want in seqs:
+                cw = ClassWorld([mod])
+                log = []
+                cw.genv["drandom"] = Obj(["module"], name="drandom", seed=lambda s_, log=log: log.append(s_))
+                for en, sd in calls_:
+                    if sd is None:
+                        cw.call("use_deterministic_prng", en)
+                    else:
+                        cw.call("use_deterministic_prng", en, sd)
+                if log != want:
+                    bad_s = f"after the calls {['use_deterministic_prng' + str(c) for c in calls_]} the generator was seeded with {log!r}, expected {want!r}"
+                    break
+            if bad_s:
+                rep.finding("RNG-2", SR, "use_deterministic_prng", "seeding", bad_s + ": the same seed no longer gives the same sequence")
+            else:
+                rep.ok("RNG-2", "use_deterministic_prng(True, s) seeds the deterministic generator with s on every call (default 0), also when already enabled")
     except (Undecided, Raised) as ex:
         rep.undecide("RNG-2", f"use_deterministic_prng: {ex}")
 
